@@ -81,6 +81,18 @@ def run(res: C.Result):
             pre, post, ev = t["pre"], t["post"], t["at_eval"]
             acc = t["outcome"] is True
             why = []
+            # ---- a do-not-touch label is honoured: an atom that a label-bearing move displaced carries a non-negative label in (one of) its parts
+            mv = next((m for m in p["moves"] if m["name"] == t["name"]), None)
+            if mv is not None and ev is not None:
+                parts = ids(mv["expr"])
+                if all(p["leaves"][j]["kind"] in ("disp", "exch") for j in parts):
+                    ppos = dict(zip(pre["vid"], pre["arrays"]["positions"]))
+                    for i, v in enumerate(ev["vid"]):
+                        if v in ppos and ev["arrays"]["positions"][i] != ppos[v]:
+                            labs = [pre["leaves"][j]["labels"][pre["vid"].index(v)] for j in parts if len(pre["leaves"][j]["labels"]) == pre["n"]]
+                            if labs and all(x < 0 for x in labs):
+                                why.append(("labels:do-not-touch-atom-displaced", f"atom {v} carries the negative label(s) {labs} in every part of move {t['name']!r} but was displaced by it"))
+                                break
             # ---- alignment of every label array with the atoms, always
             for j in label_leaves:
                 if len(post["leaves"][j]["labels"]) != post["n"]:
